@@ -276,12 +276,187 @@ fn run_history(run: &Run, idx: u64, seed: u64, cfg: &TreeCfg, long: bool, sc: &S
 	out
 }
 
+/// Explicit scenario (compaction × reorg): the block at the head (or one below) spends complete
+/// SIBLING PAIRS of old outputs, compaction runs at exactly that head, then that block is
+/// reorganised away by a heavier fork that leaves those outputs unspent; later the fork spends them.
+fn run_compaction_scenario(run: &Run, idx: u64, seed: u64, sc: &Scratch) -> Outcome {
+	use vcommon::forktree::GenBlock;
+	use vcommon::world::{Coin, PowMode};
+	let mut out = Outcome {
+		deliveries: 0,
+		reorgs: 0,
+		reopen: 0,
+		compactions: 0,
+		probes: 0,
+		invalid_rejected: HashMap::new(),
+	};
+	let mut prng = Prng::new(seed ^ 0xC02C);
+	let mut h = Hist::new(seed, false);
+	let g = h.genesis.hash();
+	let n_trunk = 82 + prng.below(6);
+	let mut tip = g;
+	// trunk: mostly coinbase-only blocks (consecutive coinbases are sibling leaves), a few spends
+	for i in 1..=n_trunk {
+		let gb = h.honest_block(&tip, if i > 10 && i % 7 == 0 { 1000 } else { 0 });
+		tip = gb.hash;
+	}
+	// how many blocks above the fork point get reorganised away; depth 1 (compaction runs at the
+	// very block that spent the pairs) is the sharpest case and always part of a run
+	let depth = if (idx / 2) % 2 == 0 { 1 } else { 1 + prng.usize_below(3) };
+	// sibling pairs among old unspent outputs with known openings
+	let pairs: Vec<(Coin, Coin)> = {
+		let st = h.state(&tip);
+		let mut v = vec![];
+		let mut k = 0usize;
+		while 2 * k + 1 < st.outs.len() {
+			let (a, b) = (&st.outs[2 * k], &st.outs[2 * k + 1]);
+			if a.spent_at.is_none() && b.spent_at.is_none() && a.height <= 40 && b.height <= 40 {
+				if let (Some(ca), Some(cb)) = (h.coins.get(&a.commit.0.to_vec()), h.coins.get(&b.commit.0.to_vec())) {
+					if st.utxo.contains_key(&a.commit) && st.utxo.contains_key(&b.commit) {
+						v.push((ca.clone(), cb.clone()));
+					}
+				}
+			}
+			k += 1;
+		}
+		v
+	};
+	let sig = format!("compaction_scenario;trunk={};pairs={};depth={}", n_trunk, pairs.len().min(3), depth);
+	let replay = json!({"scenario": "compact_at_head_spending_sibling_pairs_then_reorg", "seed": seed, "trunk": n_trunk, "depth": depth});
+	if pairs.is_empty() {
+		run.inconclusive("compaction scenario: no unspent sibling pair of old outputs in the world");
+		return out;
+	}
+	let n_pairs = 1 + prng.usize_below(pairs.len().min(2));
+	let mut spend: Vec<Coin> = vec![];
+	for (a, b) in pairs.iter().take(n_pairs) {
+		spend.push(a.clone());
+		spend.push(b.clone());
+	}
+	let mk = |h: &mut Hist, parent: &grin_core::core::hash::Hash, coins: &[Coin], difficulty: u64| -> GenBlock {
+		let txs = if coins.is_empty() { vec![] } else { vec![h.spend_tx(coins, 1, None)] };
+		let k = h.fresh_key();
+		let w = h.world.clone();
+		let mut p = h.prng.fork(41);
+		let b = h
+			.ledger
+			.make_block(&w, &mut p, parent, &txs, &k, PowMode::Skip { difficulty }, 60)
+			.expect("block");
+		let fees: u64 = txs.iter().map(|t| t.fee()).sum();
+		let cb = w.coin(grin_core::consensus::reward(fees), &k, true);
+		h.coins.insert(cb.commit.0.to_vec(), cb);
+		let st = h.ledger.state_at(parent);
+		let verdict = st.check_block(&b);
+		let gb = GenBlock { hash: b.hash(), parent: *parent, block: b, verdict, class: "honest".into(), tags: vec!["spend_sibling_pair_of_old_outputs".into()] };
+		h.blocks.push(gb.clone());
+		gb
+	};
+	// the spending block sits `depth` blocks above the fork point: first the spender, then fillers
+	let fork_point = tip;
+	let spender = mk(&mut h, &fork_point, &spend, 10);
+	let mut main_tip = spender.hash;
+	let mut main_blocks = vec![spender];
+	for _ in 1..depth {
+		let b = mk(&mut h, &main_tip, &[], 10);
+		main_tip = b.hash;
+		main_blocks.push(b);
+	}
+	// competing fork from the fork point that does not spend the pairs, with more work
+	let fork1 = mk(&mut h, &fork_point, &[], 10 * depth as u64 + 25);
+	// and later spends them again on the fork
+	let fork2 = mk(&mut h, &fork1.hash, &spend, 10);
+	let dir = sc.sub(&format!("cs{}", idx));
+	let mut chain = Some(open_chain(&dir, &h.genesis).expect("open chain"));
+	let mut accepted: HashSet<Hash> = HashSet::new();
+	let opts = h.opts();
+	let trunk_blocks: Vec<GenBlock> = h.blocks.iter().filter(|b| h.ledger.is_ancestor(&b.hash, &fork_point)).cloned().collect();
+	let mut ok = true;
+	let mut step = |chain: &Chain, gb: &GenBlock, h: &mut Hist, accepted: &mut HashSet<Hash>, out: &mut Outcome, what: &str, full: bool, prng: &mut Prng| -> bool {
+		out.deliveries += 1;
+		match chain.process_block(gb.block.clone(), opts) {
+			Ok(_) => {
+				accepted.insert(gb.hash);
+			}
+			Err(e) => {
+				run.violation(
+					&format!("C02;compaction_scenario;valid_block_rejected;{}", what),
+					&format!("block {} (h {}) valid by replay but rejected: {:?}", gb.hash, gb.block.header.height, e),
+					replay.clone(),
+				);
+				return false;
+			}
+		}
+		if full {
+			check_state(run, chain, h, accepted, &format!("compaction_scenario;{}", what), &replay, prng, out)
+		} else {
+			true
+		}
+	};
+	for (i, gb) in trunk_blocks.iter().enumerate() {
+		let full = i % 20 == 19;
+		if !step(chain.as_ref().unwrap(), gb, &mut h, &mut accepted, &mut out, "trunk", full, &mut prng) {
+			ok = false;
+			break;
+		}
+	}
+	for gb in &main_blocks {
+		if !ok {
+			break;
+		}
+		ok = step(chain.as_ref().unwrap(), gb, &mut h, &mut accepted, &mut out, "spender_branch", true, &mut prng);
+	}
+	if ok {
+		let c = chain.as_ref().unwrap();
+		let tail_before = c.tail().ok().map(|t| t.height);
+		match c.compact() {
+			Ok(()) => {
+				if c.tail().ok().map(|t| t.height) != tail_before {
+					out.compactions += 1;
+				}
+				ok = check_state(run, c, &mut h, &accepted, "compaction_scenario;after_compact", &replay, &mut prng, &mut out);
+			}
+			Err(e) => {
+				run.violation("C02;compaction_scenario;compact_failed", &format!("{:?}", e), replay.clone());
+				ok = false;
+			}
+		}
+	}
+	if ok && prng.bool() {
+		chain = None;
+		chain = Some(open_chain(&dir, &h.genesis).expect("reopen"));
+		out.reopen += 1;
+	}
+	if ok {
+		ok = step(chain.as_ref().unwrap(), &fork1, &mut h, &mut accepted, &mut out, "reorg_away_the_spender", true, &mut prng);
+		out.reorgs += 1;
+	}
+	if ok {
+		ok = step(chain.as_ref().unwrap(), &fork2, &mut h, &mut accepted, &mut out, "fork_spends_the_pairs_again", true, &mut prng);
+	}
+	if ok {
+		chain = None;
+		chain = Some(open_chain(&dir, &h.genesis).expect("reopen"));
+		out.reopen += 1;
+		ok = check_state(run, chain.as_ref().unwrap(), &mut h, &accepted, "compaction_scenario;after_reopen", &replay, &mut prng, &mut out);
+	}
+	if ok {
+		if let Err(e) = chain.as_ref().unwrap().validate(false) {
+			run.violation("C02;compaction_scenario;final_validate_failed", &format!("validate(false): {:?}", e), replay.clone());
+		}
+	}
+	drop(chain);
+	let _ = std::fs::remove_dir_all(&dir);
+	run.eval(&sig, true);
+	run.count("compaction_at_spending_head_scenarios", 1);
+	out
+}
+
 fn main() {
 	let run = Run::from_env("C02", "exploration");
 	init_globals(true);
 	let san = run.args.iter().any(|a| a == "--san");
 	let n_hist: u64 = if san { 4 } else { run.tier.pick(32, 320) };
-	let n_long: u64 = if san { 0 } else { run.tier.pick(1, 6) };
+	let n_long: u64 = if san { 0 } else { run.tier.pick(4, 16) };
 	let threads = 16u64;
 	let sc = Scratch::new("c02");
 	run.set_rule(
@@ -331,7 +506,11 @@ fn main() {
 						cfg.max_depth = 2 + p.usize_below(7);
 						cfg.n_invalid = 2 + p.usize_below(4);
 					}
-					let o = run_history(&run, i, p.next_u64(), &cfg, long, &sc);
+					let o = if long && (i - n_hist) % 2 == 1 {
+						run_compaction_scenario(&run, i, p.next_u64(), &sc)
+					} else {
+						run_history(&run, i, p.next_u64(), &cfg, long, &sc)
+					};
 					deliveries.fetch_add(o.deliveries, Ordering::SeqCst);
 					reorgs.fetch_add(o.reorgs, Ordering::SeqCst);
 					reopen.fetch_add(o.reopen, Ordering::SeqCst);
@@ -361,7 +540,8 @@ fn main() {
 		for k in ["double_spend", "spend_never_created", "spend_fork_foreign", "duplicate_unspent_commitment"] {
 			run.require(&format!("forged_rejected.{}", k), *m.get(k).unwrap_or(&0), run.tier.pick(3, 30));
 		}
-		run.require("compactions_that_moved_tail", compactions.load(Ordering::SeqCst), 1);
+		run.require("compactions_that_moved_tail", compactions.load(Ordering::SeqCst), 2);
+		run.require("compaction_at_spending_head_scenarios", run.counter("compaction_at_spending_head_scenarios"), run.tier.pick(2, 8));
 	}
 	drop(m);
 	drop(sc);
